@@ -9,6 +9,18 @@ mod verif {
     static mut S_SECS: [u64; N] = [0; N];
     static mut S_NANOS: [u32; N] = [0; N];
     static mut S_VAL: [f32; N] = [0.0; N];
+    static mut S_POOL: [f32; N] = [0.0; N];
+    /// Draw every value the model may hand out up front (keeps native concrete playback aligned).
+    fn model_reset() {
+        unsafe {
+            S_USED = 0;
+            let mut i = 0;
+            while i < N {
+                S_POOL[i] = kani::any();
+                i += 1;
+            }
+        }
+    }
     fn le(s1: u64, n1: u32, s2: u64, n2: u32) -> bool {
         s1 < s2 || (s1 == s2 && n1 <= n2)
     }
@@ -22,7 +34,8 @@ mod verif {
                 }
                 i += 1;
             }
-            let v: f32 = kani::any();
+            kani::assert(S_USED < N, "memo table too small");
+            let v: f32 = S_POOL[if S_USED < N { S_USED } else { 0 }];
             kani::assume(v >= 0.0 && v.is_finite());
             if s == 0 && n == 0 {
                 kani::assume(v == 0.0);
@@ -39,7 +52,6 @@ mod verif {
                 }
                 j += 1;
             }
-            kani::assert(S_USED < N, "memo table too small");
             if S_USED < N {
                 S_SECS[S_USED] = s;
                 S_NANOS[S_USED] = n;
@@ -133,6 +145,7 @@ mod verif {
         events: Events,
     }
     fn setup() -> Setup {
+        model_reset();
         let tl = if kani::any() { Some(any_tl(1)) } else { None };
         let animator = Animator {
             enabled: kani::any(),
